@@ -237,8 +237,8 @@ def conf_rule(ctx: Ctx) -> None:
         if stage == "ExecuteStage":
             if head == "output":
                 return True
-            # ECALL's uncounted string read: physical cache state only
-            return head == "memory" and not (set(path) & STAT)
+            # ECALL's string read: cache state (its accounting is C09's business, not an observable of C02)
+            return head == "memory" or path[:2] == ("performance_metrics", "cycles")
         if stage == "MemoryAccessStage":
             return head == "memory" or path[:2] in (("performance_metrics", "branch_count"), ("performance_metrics", "procedure_count"),
                                                      ("performance_metrics", "cycles"))
